@@ -598,6 +598,24 @@ func buildWorker(overlay, out string, cleanup func()) {
 	}
 }
 
+// workerRecycleRSS: a worker whose resident set has grown beyond this between two units is replaced
+// (16 workers share the machine's memory; a killed-by-the-kernel worker would look like a crash).
+const workerRecycleRSS = 2 << 30
+
+// workerRSS returns the resident set size of a process in bytes (0 if unknown).
+func workerRSS(pid int) int64 {
+	b, err := os.ReadFile(fmt.Sprintf("/proc/%d/statm", pid))
+	if err != nil {
+		return 0
+	}
+	f := strings.Fields(string(b))
+	if len(f) < 2 {
+		return 0
+	}
+	pages, _ := strconv.ParseInt(f[1], 10, 64)
+	return pages * int64(os.Getpagesize())
+}
+
 type job struct {
 	idx   int
 	tries int
@@ -697,6 +715,11 @@ func runUnits(worker, raceWorker, id, tier string, seed int64, units []string, n
 					case <-done:
 						return
 					}
+				}
+				if cmd != nil && cmd.Process != nil && workerRSS(cmd.Process.Pid) > workerRecycleRSS {
+					// whatever the units run so far left behind (database handles, simulated chains,
+					// caches the collector cannot see) goes with the process: a fresh one for the next unit
+					stop()
 				}
 				if cmd == nil {
 					if err := start(); err != nil {
